@@ -85,6 +85,15 @@ static std::string scenario(int k, long seed, Stats& st)
     case 5: { DirParam* dp = DirParam::create(4, 1.25); VarioParam vp; vp.addDir(*dp); Vario* v = Vario::computeFromDb(vp, w.dbin);
               if (v) { for (double x : v->getSwVec(0, 0, 0, false)) out.push_back(x); for (double x : v->getGgVec(0, 0, 0, false, false)) out.push_back(x); } delete v; delete dp; break; }
     case 6: { out = flat(w.model->evalCovMatrixSymmetricOptim(w.dbin)); for (double x : flat(w.model->evalCovMatrixOptim(w.dbin, w.dbout))) out.push_back(x); break; }
+    case 8: { // structures with a third parameter / generalised covariances (the turning-band
+              // initialisations of POWER and SPLINE keep function-local static caches)
+              static const ECov types[] = {ECov::POWER, ECov::SPLINE_GC, ECov::LINEAR, ECov::STABLE, ECov::MATERN, ECov::CAUCHY, ECov::BESSELJ};
+              Rng r2(seed + 17); ECov ty = types[r2.range(0, 6)]; double par = 0.5 * r2.range(1, 3); double scale = 2. + 3. * r2.range(1, 9);
+              defineDefaultSpace(ESpaceType::RN, 2);
+              Model* m = Model::createFromParam(ty, scale, 1., par); DbGrid* g = DbGrid::create({6, 5}, {1.5, 1.5});
+              if (m && g) { if (ty == ECov::POWER || ty == ECov::LINEAR) m->setDriftIRF(0, 0); if (ty == ECov::SPLINE_GC) m->setDriftIRF(1, 0);
+                            int n0 = g->getColumnNumber(); if (simtub(nullptr, g, m, nullptr, 1, 5678, 30) == 0) grab(g, n0); }
+              delete m; delete g; break; }
     case 7: { law_set_random_seed(777 + (int)(seed % 1000)); for (int i = 0; i < 4; i++) out.push_back(law_uniform()); out.push_back(law_gaussian()); out.push_back(law_exponential()); out.push_back((double)law_int_uniform(0, 1000)); out.push_back(law_gamma(2.5)); break; }
   }
   delete nu; delete nm; freeWorld(w);
@@ -92,12 +101,12 @@ static std::string scenario(int k, long seed, Stats& st)
 }
 
 // a prelude of unrelated calls: other data, other models, failures, random draws, file settings
-static void prelude(Rng& r, Stats& st)
+static void prelude(Rng& r, Stats& st, int force = -1, long wseed = 0)
 {
   int n = (int)r.range(2, 6);
   for (int i = 0; i < n; i++)
   {
-    int what = (int)r.range(0, 9);
+    int what = (force >= 0 && i == 0) ? force : (int)r.range(0, 10);
     World w = makeWorld(r.range(1, 1000000), st);
     if (!w.model) { continue; }
     ANeigh* nu = NeighUnique::create(); ANeigh* nm = NeighMoving::create(false, 4, 30.);
@@ -114,6 +123,15 @@ static void prelude(Rng& r, Stats& st)
       case 6: (void)w.model->evalCovMatrixSymmetricOptim(w.dbin); (void)w.model->evalCovMatrixOptim(w.dbin, w.dbout); break;
       case 7: { w.dbin->clearLocators(ELoc::Z); (void)kriging(w.dbin, w.dbout, w.model, nu); break; }   // failing call: no variable
       case 8: { DirParam* dp = DirParam::create(3, 2.); VarioParam vp; vp.addDir(*dp); Vario* v = Vario::computeFromDb(vp, w.dbin); delete v; delete dp; break; }
+      case 10: { static const ECov types[] = {ECov::POWER, ECov::SPLINE_GC, ECov::LINEAR, ECov::STABLE, ECov::MATERN, ECov::CAUCHY, ECov::BESSELJ};
+                 for (int rep = 0; rep < 3; rep++) { ECov ty = types[r.range(0, 6)]; double par = 0.5 * r.range(1, 3); double scale = 2. + 3. * r.range(1, 9);
+                   // first repetition of a forced prelude: the very structure and parameter of the scenario, another scale
+                   if (force == 10 && rep == 0 && i == 0) { Rng r2(wseed + 17); ty = types[r2.range(0, 6)]; par = 0.5 * r2.range(1, 3); double sc = 2. + 3. * r2.range(1, 9); scale = sc + 7.; }
+                   defineDefaultSpace(ESpaceType::RN, 2);
+                   Model* m = Model::createFromParam(ty, scale, 1., par); DbGrid* g = DbGrid::create({4, 4}, {2., 2.});
+                   if (m && g) { if (ty == ECov::POWER || ty == ECov::LINEAR) m->setDriftIRF(0, 0); if (ty == ECov::SPLINE_GC) m->setDriftIRF(1, 0); (void)simtub(nullptr, g, m, nullptr, 1, (int)r.range(1, 9999), 12); }
+                   delete m; delete g; }
+                 defineDefaultSpace(ESpaceType::RN, w.ndim); break; }
       case 9: { ASerializable::setPrefixName("zz"); ASerializable::setPrefixName(""); (void)simtub(w.dbin, w.grid, w.model, nu, 1, 5, 8); break; }
     }
     delete nu; delete nm; freeWorld(w);
@@ -165,15 +183,15 @@ int main()
 
   // ---------- (2) history independence
   long nhist = envLong("VERIF_CASES", thorough() ? 400 : 40);
-  static const char* names[] = {"kriging_unique", "kriging_moving", "xvalid", "simtub_noncond", "simtub_cond", "vario", "covmatrix_optim", "law_stream"};
+  static const char* names[] = {"kriging_unique", "kriging_moving", "xvalid", "simtub_noncond", "simtub_cond", "vario", "covmatrix_optim", "law_stream", "simtub_special_structures"};
   for (long q = 0; q < nhist; q++)
   {
     long wseed = rng.range(1, 1000000000);
-    for (int k = 0; k < 8; k++)
+    for (int k = 0; k < 9; k++)
     {
       long pseed = rng.range(1, 1000000000);
       std::string fresh = inChild([&]() { Stats s2; return scenario(k, wseed, s2); });
-      std::string after = inChild([&]() { Stats s2; Rng pr(pseed); prelude(pr, s2); return scenario(k, wseed, s2); });
+      std::string after = inChild([&]() { Stats s2; Rng pr(pseed); prelude(pr, s2, k == 8 ? 10 : -1, wseed); return scenario(k, wseed, s2); });
       if (fresh == "NOMODEL") continue;
       if (fresh == "CRASH" || after == "CRASH" || fresh == "EXCEPTION" || after == "EXCEPTION") { printf("k crash hist_%s %s =>\n", names[k], fresh == after ? "both" : (fresh.size() < 12 ? "fresh" : "after-prelude")); continue; }
       printf("k pair hist_%s %s %s - - 1:0 =>\n", names[k], fresh.c_str(), after.c_str());
